@@ -58,10 +58,10 @@ def premise_check(b, d, seed, tier):
     not_typed = [(i, t) for i, t in cands if res.get(i, "").startswith("NOT-TYPED") or res.get(i, "MISSING").startswith(("MISSING", "CRASH", "EXN"))]
     cov = {
         "premise_tc_annotations_typed_checked_on": int(cnt.get("TYPED", 0)),
-        "premise_outside_fragment_split_or_several_providers": int(cnt.get("OUTSIDE-FRAGMENT", 0)),
+        "premise_outside_fragment": int(cnt.get("OUTSIDE-FRAGMENT", 0)),
         "premise_failed_on": len(not_typed),
         "premise_rule": "every candidate program of the suite is parsed and typechecked by the model; if it is accepted and in the fragment of the theorems "
-                        "(no split, one provider name per process) the extracted checker static_typed_b decides whether the annotated program satisfies the run-time "
+                        "the extracted checker static_typed_b decides whether the annotated program satisfies the run-time "
                         "typing judgement; TYPED means the premise of safety_partial / progress_run_partial is a theorem for that program (static_check_sound)",
         "premise_checked_among_programs_run": sum(1 for i, _ in cands if i in ran and res.get(i, "").startswith("TYPED")),
     }
